@@ -1069,21 +1069,21 @@ func calculateStaticReturn(expr string, ls, rs Source, op promParser.ItemType, i
 				ls.Position
 		}
 	case promParser.ADD:
-		return ls.ReturnedNumber + rs.ReturnedNumber, isDead, "", ls.IsDeadPosition
+		return ls.ReturnedNumber + rs.ReturnedNumber, isDead, ls.IsDeadReason, ls.IsDeadPosition
 	case promParser.SUB:
-		return ls.ReturnedNumber - rs.ReturnedNumber, isDead, "", ls.IsDeadPosition
+		return ls.ReturnedNumber - rs.ReturnedNumber, isDead, ls.IsDeadReason, ls.IsDeadPosition
 	case promParser.MUL:
-		return ls.ReturnedNumber * rs.ReturnedNumber, isDead, "", ls.IsDeadPosition
+		return ls.ReturnedNumber * rs.ReturnedNumber, isDead, ls.IsDeadReason, ls.IsDeadPosition
 	case promParser.DIV:
-		return ls.ReturnedNumber / rs.ReturnedNumber, isDead, "", ls.IsDeadPosition
+		return ls.ReturnedNumber / rs.ReturnedNumber, isDead, ls.IsDeadReason, ls.IsDeadPosition
 	case promParser.MOD:
-		return math.Mod(ls.ReturnedNumber, rs.ReturnedNumber), isDead, "", ls.IsDeadPosition
+		return math.Mod(ls.ReturnedNumber, rs.ReturnedNumber), isDead, ls.IsDeadReason, ls.IsDeadPosition
 	case promParser.POW:
-		return math.Pow(ls.ReturnedNumber, rs.ReturnedNumber), isDead, "", ls.IsDeadPosition
+		return math.Pow(ls.ReturnedNumber, rs.ReturnedNumber), isDead, ls.IsDeadReason, ls.IsDeadPosition
 	case promParser.ATAN2:
-		return math.Atan2(ls.ReturnedNumber, rs.ReturnedNumber), isDead, "", ls.IsDeadPosition
+		return math.Atan2(ls.ReturnedNumber, rs.ReturnedNumber), isDead, ls.IsDeadReason, ls.IsDeadPosition
 	}
-	return ls.ReturnedNumber, isDead, "", ls.IsDeadPosition
+	return ls.ReturnedNumber, isDead, ls.IsDeadReason, ls.IsDeadPosition
 }
 
 // FIXME sum() on ().
